@@ -1,5 +1,5 @@
 /-
-C40 — property theorems (statements depend on Model.lean; `build`, `toMatrix` are in Lemmas.lean).
+C40 — property theorems (statements depend on Model.lean only).
 
 Property: second- and fourth-order tensors built from admissible parameters are symmetric;
 rotating a second-order tensor is a similarity transform preserving its eigenvalues;
@@ -96,14 +96,11 @@ theorem sot_rotate_det (R K : M3) (h : mul3 (transpose3 R) R = id3) :
     detM (rotate1 R K) = detM K := by
   rw [det_rotate1_gram, h, mul3_id3, detM_transpose3]
 
-/-- `RᵀR = I` ⇒ the characteristic polynomial (Mathlib's `Matrix.charpoly`), hence the
-    eigenvalues with multiplicities, is preserved. -/
-theorem sot_rotate_charpoly (R K : M3) (h : mul3 (transpose3 R) R = id3) :
-    (toMatrix (rotate1 R K)).charpoly = (toMatrix K).charpoly := by
-  have hg : (toMatrix R).transpose * toMatrix R = 1 := by
-    rw [← toMatrix_transpose3, ← toMatrix_mul3, h, toMatrix_id3]
-  rw [toMatrix_rotate1, Matrix.charpoly_mul_comm, ← Matrix.mul_assoc, hg, Matrix.one_mul,
-    Matrix.charpoly_transpose]
+/-- `RᵀR = I` ⇒ the characteristic polynomial `det(x·I − K)` is preserved for every `x`; hence
+    the eigenvalues (its roots, with multiplicities) of every cell are those of the original. -/
+theorem sot_rotate_charpoly (R K : M3) (h : mul3 (transpose3 R) R = id3) (x : Rat) :
+    charPoly3 (rotate1 R K) x = charPoly3 K x := by
+  rw [charPoly3_eq, charPoly3_eq, sot_rotate_trace R K h, sot_rotate_inv2 R K h, sot_rotate_det R K h]
 
 /-! ### copy and restriction -/
 
@@ -272,10 +269,14 @@ example : (mkSOT exArgs).toOption.map (fun t => entries (rotate exR t))
     = some [[[12/5, 1/5, 7/10], [1/5, 23/5, 1/10], [7/10, 1/10, 2]], [[1, 0, 0], [0, 1, 0], [0, 0, 1]]] := by
   decide +kernel
 
-example : mkSOT { kxx := [1, -1] } = .error .x := by decide +kernel
-example : mkSOT { kxx := [1], kyy := some [1], kxy := some [2] } = .error .y := by decide +kernel
-example : mkSOT { kxx := [1], kyy := some [1], kzz := some [1], kxz := some [2] } = .error .z := by decide +kernel
-example : mkSOT { kxx := [1, 1], kyy := some [1, 1, 1] } = .error .shape := by decide +kernel
+def errOf {α : Type} : Except Err α → Option Err
+  | .error e => some e
+  | .ok _ => none
+
+example : errOf (mkSOT { kxx := [1, -1] }) = some .x := by decide +kernel
+example : errOf (mkSOT { kxx := [1], kyy := some [1], kxy := some [2] }) = some .y := by decide +kernel
+example : errOf (mkSOT { kxx := [1], kyy := some [1], kzz := some [1], kxz := some [2] }) = some .z := by decide +kernel
+example : errOf (mkSOT { kxx := [1, 1], kyy := some [1, 1, 1] }) = some .shape := by decide +kernel
 example : select [10, 20, 30] [2, 0, 2] = some [30, 10, 30] ∧ select [10, 20, 30] [3] = none := by decide
 
 example : (mkFOT [1, 2] [3, 5] []).toOption.map (fun t => t.values.map (fun V => [V 0 0, V 0 4, V 1 3, V 1 1, V 1 2, V 8 8]))
